@@ -623,18 +623,20 @@ func (st *AclState) applyAccountsAdd(ch *aclrecordproto.AclAccountsAdd, record *
 		if err != nil {
 			return err
 		}
-		st.accountStates[mapKeyFromPubKey(identity)] = AccountState{
-			PubKey:          identity,
-			Permissions:     AclPermissions(acc.Permissions),
-			Status:          StatusActive,
-			RequestMetadata: acc.Metadata,
-			KeyRecordId:     st.CurrentReadKeyId(),
-			PermissionChanges: []PermissionChange{
-				{
-					Permission: AclPermissions(acc.Permissions),
-					RecordId:   record.Id,
-				},
-			},
+		// an account that is added again keeps its permission history: changes it made during
+		// an earlier membership are still validated against the permission it held back then
+		pKeyString := mapKeyFromPubKey(identity)
+		permissionChanges := []PermissionChange{{Permission: AclPermissions(acc.Permissions), RecordId: record.Id}}
+		if state, exists := st.accountStates[pKeyString]; exists {
+			permissionChanges = append(state.PermissionChanges, permissionChanges[0])
+		}
+		st.accountStates[pKeyString] = AccountState{
+			PubKey:            identity,
+			Permissions:       AclPermissions(acc.Permissions),
+			Status:            StatusActive,
+			RequestMetadata:   acc.Metadata,
+			KeyRecordId:       st.CurrentReadKeyId(),
+			PermissionChanges: permissionChanges,
 		}
 
 		// If the current account is the one being added, then decrypt the read key using its private key
